@@ -269,17 +269,17 @@ class HttpParser:
                 )
             else:
                 more, raw = self._process_headers(raw)
-            # When server sends a response line without any header or body e.g.
-            # HTTP/1.1 200 Connection established\r\n\r\n
-            if self.type == httpParserTypes.RESPONSE_PARSER and \
-                    self.state == httpParserStates.LINE_RCVD and \
-                    raw == CRLF:
-                self.state = httpParserStates.COMPLETE
             # Mark request as complete if headers received and no incoming
-            # body indication received.
-            elif self.state == httpParserStates.HEADERS_COMPLETE and \
+            # body indication received.  A request without framing headers
+            # has no body, same goes for any message with a zero content-length.
+            # Only such responses are delimited by connection close.
+            if self.state == httpParserStates.HEADERS_COMPLETE and \
                     not (self._content_expected or self._is_chunked_encoded) and \
-                    raw == b'':
+                    (
+                        raw == b'' or
+                        self.type == httpParserTypes.REQUEST_PARSER or
+                        self.has_header(b'content-length')
+                    ):
                 self.state = httpParserStates.COMPLETE
         self.buffer = None if raw == b'' else raw
 
@@ -470,7 +470,7 @@ class HttpParser:
 
     def _get_body_or_chunks(self) -> Optional[bytes]:
         return ChunkParser.to_chunks(self.body) \
-            if self.body and self._is_chunked_encoded else \
+            if self.body is not None and self._is_chunked_encoded else \
             self.body
 
     def _set_line_attributes(self) -> None:
